@@ -44,6 +44,16 @@ def _has(kind, n=1):
     return pred
 
 
+def _fn_has(fname, kind, n=1):
+    def pred(prog):
+        fs = [f for f in prog.func_decls if getattr(f.name, 'base_name', '') == fname]
+        if len(fs) != 1:
+            return f'function {fname} not found in the typed tree'
+        got = len(nodes(fs[0].body, kind))
+        return None if got >= n else f'{got} {kind} nodes in the typed body of {fname} (at least {n} must be there)'
+    return pred
+
+
 # (group, rule text, program, verdict, predicate or None)
 CATALOGUE = [
     # ---- overload resolution ------------------------------------------------------------------------------------------
@@ -105,6 +115,20 @@ CATALOGUE = [
     ('faults kept', 'x / x is not 1 when x is 0', 'empty @is_you() { int d = 0; int n = d / d; write(n); }', True, _has('Div')),
     ('faults kept', 'an index into a constant array is checked unless it is a constant in range',
      'empty @is_you() { int i = 5; const int[] a = [1, 2]; write(a[i]); }', True, _has('ArrayLookup')),
+    # ---- control never runs off the end of a function -------------------------------------------------------------------------
+    ('exit', 'an empty function with an empty body still returns', 'empty f() { }\nempty @is_you() { f(); write(1); }', True, _fn_has('f', 'ReturnStatement')),
+    ('exit', 'an empty function falling off its end returns', 'empty f() { write(1); }\nempty @is_you() { f(); }', True, _fn_has('f', 'ReturnStatement')),
+    ('exit', 'the entry function returns too', 'empty @is_you() { }', True, _fn_has('is_you', 'ReturnStatement')),
+    ('exit', 'a defeat test on a constant false is not an exit: what follows is kept',
+     'int !f() { !truth_is_defeat(false); return 1; }\nempty @is_you() { try { write(!f()); } undo { } }', True, _fn_has('f', 'ReturnStatement')),
+    ('exit', 'a defeat test on a run-time value is not an exit',
+     'int !f(bool q) { !truth_is_defeat(q); return 1; }\nempty @is_you() { try { write(!f(false)); } undo { } }', True, _fn_has('f', 'ReturnStatement')),
+    ('exit', 'a value function whose only exit is a defeat test on constant false lacks a return',
+     'int !f() { !truth_is_defeat(false); }\nempty @is_you() { try { write(!f()); } undo { } }', False, None),
+    ('exit', 'statements after a constant-false if are kept',
+     'int f() { if (false) { return 2; } return 1; }\nempty @is_you() { write(f()); }', True, _fn_has('f', 'ReturnStatement')),
+    ('exit', 'a loop that can be left by break is followed by live code',
+     'int f() { while (true) { break; } return 1; }\nempty @is_you() { write(f()); }', True, _fn_has('f', 'ReturnStatement')),
     # ---- declarations / assignments -----------------------------------------------------------------------------------------
     ('declare', 'a const cannot be assigned', 'empty @is_you() { const int c = 1; c = 2; }', False, None),
     ('declare', 'a local may shadow a global', 'int g = 1;\nempty @is_you() { int g = 2; write(g); }', True, None),
